@@ -17,6 +17,18 @@ def install(r):
         I.st.assume(t >= 0)
         return SInt(t)
 
+    @r.ext("datetime:datetime.fromisoformat")
+    def _fromiso(I, a, k):
+        # timestamps are integers and isoformat() is modelled as the identity on them (order-isomorphic text): the inverse
+        from pyvc.values import VAL, SVal
+
+        v = a[0]
+        if isinstance(v, SVal):
+            return SInt(VAL.vi(v.t))
+        if isinstance(v, SInt):
+            return v
+        return SInt(fresh_int("parsed_time"))
+
     @r.ext("datetime:timedelta")
     def _timedelta(I, a, k):
         # durations are integers (an abstract number of time units); only non-negativity of sums matters
